@@ -28,23 +28,23 @@ Proof.
 Qed.
 
 Lemma tw_begin_cases k A b l :
-  (exists q b1, fast k b l = Some (q, b1) /\
-     fst (tw_begin k A b l) = push_tw b1 (mkTw (cur_foot k b) (cur_ptr k b) q (l_size l)) /\
+  (exists q b1 top, fast k b l = Some (q, b1) /\
+     fst (tw_begin k A b l) = push_tw b1 (mkTw (cur_foot k b) (cur_ptr k b) q (l_size l) top) /\
      o_res (snd (tw_begin k A b l)) = ROk q) \/
   (fast k b l = None /\
-   exists g data reqs q b2, A b (ForLayout l) = (AcqSome g data, reqs) /\
+   exists g data reqs q b2 top, A b (ForLayout l) = (AcqSome g data, reqs) /\
      fast k (push_chunk b (new_chunk k b g data)) l = Some (q, b2) /\
-     fst (tw_begin k A b l) = push_tw b2 (mkTw (cur_foot k b) (cur_ptr k b) q (l_size l)) /\
+     fst (tw_begin k A b l) = push_tw b2 (mkTw (cur_foot k b) (cur_ptr k b) q (l_size l) top) /\
      o_res (snd (tw_begin k A b l)) = ROk q) \/
   (forall q, o_res (snd (tw_begin k A b l)) <> ROk q).
 Proof.
   unfold tw_begin, try_alloc.
   destruct (fast k b l) as [[q b1]|] eqn:F; cbn [fst snd o_res].
-  - left. exists q, b1. conj; try reflexivity; try assumption.
+  - left. eexists q, b1, _. conj; try reflexivity; try assumption.
   - unfold slow. destruct (A b (ForLayout l)) as [a reqs] eqn:EA.
     destruct a as [|w|g data]; cbn [fst snd o_res]; try (right; right; intros q; discriminate).
     destruct (fast k (push_chunk b (new_chunk k b g data)) l) as [[q b2]|] eqn:F2; cbn [fst snd o_res].
-    + right. left. split; [reflexivity|]. exists g, data, reqs, q, b2. conj; try reflexivity; try assumption.
+    + right. left. split; [reflexivity|]. eexists g, data, reqs, q, b2, _. conj; try reflexivity; try assumption.
     + right. right. intros q; discriminate.
 Qed.
 
@@ -56,12 +56,12 @@ Theorem rewind_restores k A b l p :
     o_res (snd (try_alloc k A' b2 l)) = ROk p /\ o_reqs (snd (try_alloc k A' b2 l)) = [].
 Proof.
   intros K HC HA Pa Hres b2 A'. unfold b2. clear b2.
-  destruct (tw_begin_cases k A b l) as [(q & b1 & F & E1 & R1)|[(F & g & data & reqs & q & b2' & EA & F2 & E1 & R1)|Hno]].
+  destruct (tw_begin_cases k A b l) as [(q & b1 & top & F & E1 & R1)|[(F & g & data & reqs & q & b2' & top & EA & F2 & E1 & R1)|Hno]].
   - (* the slot was carved from the current chunk (or is zero-sized on a chunk-less arena) *)
     rewrite R1 in Hres. inversion Hres; subst q; clear Hres. rewrite E1.
-    unfold tw_end. replace (tws (push_tw b1 (mkTw (cur_foot k b) (cur_ptr k b) p (l_size l)))) with (mkTw (cur_foot k b) (cur_ptr k b) p (l_size l) :: tws b1) by reflexivity.
+    unfold tw_end. replace (tws (push_tw b1 (mkTw (cur_foot k b) (cur_ptr k b) p (l_size l) top))) with (mkTw (cur_foot k b) (cur_ptr k b) p (l_size l) top :: tws b1) by reflexivity.
     destruct (set_ptr_back k b l p b1 F) as (Hback & Ht & Hf & Hp).
-    assert (E0 : set_tws (push_tw b1 (mkTw (cur_foot k b) (cur_ptr k b) p (l_size l))) (tws b1) = b1)
+    assert (E0 : set_tws (push_tw b1 (mkTw (cur_foot k b) (cur_ptr k b) p (l_size l) top)) (tws b1) = b1)
       by (unfold set_tws, push_tw; cbn [chunks limit]; apply bump_eta).
     rewrite E0. cbn [tw_res tw_foot tw_ptr].
     assert (Hcp : cur_ptr k b1 = p).
@@ -76,9 +76,9 @@ Proof.
     destruct (new_chunk_inv k b g data K HC Hf) as (C1 & Hptr & Hfoot).
     set (nc := new_chunk k b g data) in *.
     set (b1 := push_chunk b nc) in *.
-    unfold tw_end. replace (tws (push_tw b2' (mkTw (cur_foot k b) (cur_ptr k b) p (l_size l)))) with (mkTw (cur_foot k b) (cur_ptr k b) p (l_size l) :: tws b2') by reflexivity.
+    unfold tw_end. replace (tws (push_tw b2' (mkTw (cur_foot k b) (cur_ptr k b) p (l_size l) top))) with (mkTw (cur_foot k b) (cur_ptr k b) p (l_size l) top :: tws b2') by reflexivity.
     destruct (set_ptr_back k b1 l p b2' F2) as (Hback & Ht & Hft & Hp).
-    assert (E0 : set_tws (push_tw b2' (mkTw (cur_foot k b) (cur_ptr k b) p (l_size l))) (tws b2') = b2')
+    assert (E0 : set_tws (push_tw b2' (mkTw (cur_foot k b) (cur_ptr k b) p (l_size l) top)) (tws b2') = b2')
       by (unfold set_tws, push_tw; cbn [chunks limit]; apply bump_eta).
     rewrite E0. cbn [tw_res tw_foot tw_ptr].
     assert (Hcp : cur_ptr k b2' = p) by (apply Hp; unfold b1; cbn; discriminate).
